@@ -187,7 +187,7 @@ theorem kids_change {S : Ord} {d : Db} (hI : ChInv S d) (op : Op) (k : Int) :
       simp only [kidsChangeOk, ordOk]
       cases peGet d c t <;> exact holds_same _
     | clearTracks c => cases out <;> exact holds_same _
-    | peAddBack l t f =>
+    | peAddBack l t u f =>
       cases out with
       | none => exact holds_same _
       | some e => simp only [kidsChangeOk, ordOk]; split <;> exact holds_same _
@@ -198,15 +198,15 @@ theorem fresh_pe {S : Ord} {d : Db} (hI : ChInv S d) (k : Int) : d.peSeq + 1 ∉
   apply hI.re.not_mem_of_fresh
   intro h; have := hI.peSeq _ h; omega
 
-theorem peAddBack_new {d : Db} {l t : Int} {f : Bool} {out : Out} (hn : peGet d l t = none)
-    (h : (peAddBack d l t f).2 = .ok out) : out = some (d.peSeq + 1) := by
+theorem peAddBack_new {d : Db} {l t u : Int} {f : Bool} {out : Out} (hn : peFind d l t u = none)
+    (h : (peAddBack d l t u f).2 = .ok out) : out = some (d.peSeq + 1) := by
   unfold peAddBack at h
   rw [hn] at h
   simp at h
   exact h.symm
 
 theorem step_addTrack_ok {d : Db} {c t : Int} {out : Out} (h : (step d (.addTrack c t)).2 = .ok out) :
-    (peAddBack d c t false).2 = .ok out := by
+    (peAddBack d c t 0 false).2 = .ok out := by
   simp only [step] at h
   split at h
   · simp at h
@@ -263,7 +263,7 @@ theorem ents_change {S : Ord} {d : Db} (hI : ChInv S d) (op : Op) (l : Int) :
       | none => exact holds_same _
       | some e =>
         simp only [entsChangeOk, ordOk]
-        cases hg : peGet d c t with
+        cases hg : peFind d c t 0 with
         | some e0 => simp only [Option.isNone_some, Bool.and_false, Bool.false_eq_true, if_false]; exact holds_same _
         | none =>
           have he := peAddBack_new hg (step_addTrack_ok hres)
@@ -290,12 +290,12 @@ theorem ents_change {S : Ord} {d : Db} (hI : ChInv S d) (op : Op) (l : Int) :
       by_cases hl : l = c
       · subst hl; rw [if_pos rfl, setKey_same]; exact holds_dropped _
       · rw [if_neg hl, setKey_other _ _ hl]; exact holds_same _
-    | peAddBack c t f =>
+    | peAddBack c t u f =>
       cases out with
       | none => exact holds_same _
       | some e =>
         simp only [entsChangeOk, ordOk]
-        cases hg : peGet d c t with
+        cases hg : peFind d c t u with
         | some e0 => simp only [Option.isNone_some, Bool.and_false, Bool.false_eq_true, if_false]; exact holds_same _
         | none =>
           have he := peAddBack_new hg (f := f) hres
